@@ -22,9 +22,9 @@ static int verif_strcmp3(const char *a, const char *b) {
 #include "parse.c"
 #undef strcmp
 
-#define NF 4
+#define NF 3
 struct IN_t {
-  unsigned char root[NF], edge[NF][NF], ref_var[NF], ref_undeclared[NF], is_def[NF];
+  unsigned short graph;
   // scan_globals
   unsigned char n, name[4], kind[4];
 } IN;
@@ -33,51 +33,56 @@ struct IN_t nondet_IN(void);
 // ---- environment: main.c globals; HashMap replaced by its specification (name -> value list)
 noreturn void error(char *fmt, ...) { verif_exit(1); }
 noreturn void error_tok(Token *tok, char *fmt, ...) { verif_exit(1); }
-#define HM_MAX 8
-static struct { HashMap *map; char *key; void *val; } hm[HM_MAX];
-static int hm_n;
-static bool key_eq(const char *a, const char *b) {   // names in this harness are 2 bytes + NUL
-  return a[0] == b[0] && a[1] == b[1] && a[2] == b[2];
-}
-void *hashmap_get(HashMap *map, char *key) {
-  for (int i = HM_MAX - 1; i >= 0; i--)
-    if (i < hm_n && hm[i].map == map && key_eq(hm[i].key, key)) return hm[i].val;
-  return NULL;
-}
-void hashmap_put(HashMap *map, char *key, void *val) {
-  VASSERT(hm_n < HM_MAX, "harness bound: hashmap entries");
-  hm[hm_n].map = map; hm[hm_n].key = key; hm[hm_n].val = val; hm_n++;
-}
+// The file scope of the mark_live harness is fixed: "f0".."f2" are the functions fn[0..2], "gv" is a
+// variable, anything else is undeclared.  hashmap_get on that scope is its specification:
+static VarScope *scope_lookup(char *key);
+void *hashmap_get(HashMap *map, char *key) { return scope_lookup(key); }
+void hashmap_put(HashMap *map, char *key, void *val) {}
 
 // ================================================================ mark_live
-static char fname[NF][3] = {"f0", "f1", "f2", "f3"};
+// A symbolic graph makes every is_live test symbolic, and cbmc then explores the full recursion
+// tree of the DFS (NF^NF calls; > 500k steps already for 3 nodes).  The graph is therefore selected
+// by the symbolic index IN.graph among ALL graphs on NF=3 nodes (9 edge bits incl. self loops,
+// 3 root bits, 1 bit choosing what a missing edge slot refers to: a variable or an undeclared
+// name) = 8192 cases; each harness function covers a batch of GB cases and explores them case by
+// case with concrete data inside the case.
+#undef NF
+#define NF 3
+#define GB 512
+static char fname[4][3] = {"f0", "f1", "f2", "f3"};
+static char sp_gv[] = "gv", sp_uu[] = "uu";
 static Obj fn[NF], gv;
 static VarScope vs[NF + 1];
-static char *refbuf[NF][NF + 2];
+static char *refbuf[NF][NF];
 
-void h_mark_live(void) {
-  HAVOC_IN();
-  // file scope: f0..f3 are functions, "gv" is a variable, "uu" is not declared
+static VarScope *scope_lookup(char *key) {
+  if (key[0] == 'f' && key[1] >= '0' && key[1] < '0' + NF && key[2] == 0) return &vs[key[1] - '0'];
+  if (key[0] == 'g' && key[1] == 'v' && key[2] == 0) return &vs[NF];
+  return NULL;
+}
+static void run_graph(int g) {
+  bool edge[NF][NF], root[NF];
   for (int i = 0; i < NF; i++) {
-    __CPROVER_assume(IN.root[i] <= 1 && IN.ref_var[i] <= 1 && IN.ref_undeclared[i] <= 1 && IN.is_def[i] <= 1);
-    fn[i].name = fname[i]; fn[i].is_function = true; fn[i].is_definition = IN.is_def[i];
-    fn[i].is_root = IN.root[i]; fn[i].is_live = false;
+    root[i] = (g >> (9 + i)) & 1;
+    for (int j = 0; j < NF; j++) edge[i][j] = (g >> (3 * i + j)) & 1;
+  }
+  bool alt = (g >> 12) & 1;
+  for (int i = 0; i < NF; i++) {
+    fn[i] = (Obj){0};
+    fn[i].name = fname[i]; fn[i].is_function = true; fn[i].is_definition = true;
+    fn[i].is_root = root[i]; fn[i].is_live = false;
     fn[i].next = i + 1 < NF ? &fn[i + 1] : NULL;
-    int k = 0;
-    // references in source order; copies of the names, as primary() records them (strndup'd spellings)
-    if (IN.ref_undeclared[i]) refbuf[i][k++] = "uu";
-    for (int j = 0; j < NF; j++) {
-      __CPROVER_assume(IN.edge[i][j] <= 1);
-      if (IN.edge[i][j]) { char *c = calloc(1, 3); c[0] = 'f'; c[1] = '0' + j; refbuf[i][k++] = c; }
-    }
-    if (IN.ref_var[i]) refbuf[i][k++] = "gv";
-    fn[i].refs.data = refbuf[i]; fn[i].refs.len = k; fn[i].refs.capacity = NF + 2;
+    // NF recorded references per function: slot j names f_j if the edge i->j exists, otherwise the
+    // variable "gv" or the undeclared name "uu" (find_func must ignore both)
+    for (int j = 0; j < NF; j++) refbuf[i][j] = edge[i][j] ? fname[j] : alt ? sp_gv : sp_uu;
+    fn[i].refs.data = refbuf[i]; fn[i].refs.len = NF; fn[i].refs.capacity = NF;
     vs[i].var = &fn[i];
     hashmap_put(&scope->vars, fname[i], &vs[i]);
   }
-  gv.name = "gv"; gv.is_function = false;
+  gv = (Obj){0};
+  gv.name = sp_gv; gv.is_function = false;
   vs[NF].var = &gv;
-  hashmap_put(&scope->vars, "gv", &vs[NF]);
+  hashmap_put(&scope->vars, sp_gv, &vs[NF]);
   globals = &fn[0];
 
   // what parse() does after the last declaration
@@ -85,23 +90,36 @@ void h_mark_live(void) {
     if (var->is_root)
       mark_live(var);
 
-  // reference: reflexive-transitive closure from the roots (Warshall on 4 nodes)
+  // reference: reflexive-transitive closure from the roots (Warshall)
   bool reach[NF][NF];
-  for (int i = 0; i < NF; i++) for (int j = 0; j < NF; j++) reach[i][j] = i == j || IN.edge[i][j];
+  for (int i = 0; i < NF; i++) for (int j = 0; j < NF; j++) reach[i][j] = i == j || edge[i][j];
   for (int k = 0; k < NF; k++) for (int i = 0; i < NF; i++) for (int j = 0; j < NF; j++)
     if (reach[i][k] && reach[k][j]) reach[i][j] = true;
   for (int j = 0; j < NF; j++) {
     bool want = false;
-    for (int i = 0; i < NF; i++) if (IN.root[i] && reach[i][j]) want = true;
+    for (int i = 0; i < NF; i++) if (root[i] && reach[i][j]) want = true;
     VASSERT(fn[j].is_live == want, "is_live <=> reachable from a root through the recorded references");
   }
   VASSERT(!gv.is_live, "a variable is never marked live");
-  VCOVER();
 }
+static void run_gbatch(int b) {
+  HAVOC_IN();
+  int k = IN.graph;
+  __CPROVER_assume(k >= b * GB && k < (b + 1) * GB);
+  for (int i = b * GB; i < (b + 1) * GB; i++) {
+    if (k != i) continue;
+    run_graph(i);
+    VCOVER();
+    return;
+  }
+}
+#define GBATCH(b) void h_mark_live_##b(void) { run_gbatch(b); }
+GBATCH(0) GBATCH(1) GBATCH(2) GBATCH(3) GBATCH(4) GBATCH(5) GBATCH(6) GBATCH(7)
+GBATCH(8) GBATCH(9) GBATCH(10) GBATCH(11) GBATCH(12) GBATCH(13) GBATCH(14) GBATCH(15)
 
 // ================================================================ scan_globals
 enum { K_EXTERN, K_TENTATIVE, K_DEFINITION };   // extern int x; | int x; | int x = 1;
-static Obj go[4];
+static Obj *go[4];
 static char gname[2][3] = {"aa", "bb"};
 
 void h_scan_globals(void) {
@@ -112,27 +130,30 @@ void h_scan_globals(void) {
   for (int i = 0; i < 4; i++) {
     __CPROVER_assume(IN.name[i] <= 1 && IN.kind[i] <= K_DEFINITION);
     // representation as global_variable() builds it (list in reverse declaration order)
-    go[i].name = gname[IN.name[i]];
-    go[i].is_definition = IN.kind[i] != K_EXTERN;
-    go[i].is_tentative = IN.kind[i] == K_TENTATIVE;
-    go[i].init_data = IN.kind[i] == K_DEFINITION ? "\0\0\0\0" : NULL;
-    go[i].next = i + 1 < n ? &go[i + 1] : NULL;
+    go[i] = calloc(1, sizeof(Obj));
+    go[i]->name = gname[IN.name[i]];
+    go[i]->is_definition = IN.kind[i] != K_EXTERN;
+    go[i]->is_tentative = IN.kind[i] == K_TENTATIVE;
+    go[i]->init_data = IN.kind[i] == K_DEFINITION ? "\0\0\0\0" : NULL;
+    go[i]->offset = i;                      // (unused for globals) carries the position in the input
+    if (i > 0 && i < n) go[i - 1]->next = go[i];
     if (i < n && IN.kind[i] == K_DEFINITION) ndef[IN.name[i]]++;
     if (i < n && IN.kind[i] == K_TENTATIVE) ntent[IN.name[i]]++;
   }
   __CPROVER_assume(ndef[0] <= 1 && ndef[1] <= 1);     // two real definitions: a redefinition error, diagnosed elsewhere
-  globals = n ? &go[0] : NULL;
+  globals = n ? go[0] : NULL;
 
   scan_globals();
 
   // walk the result
   int kept_def[2] = {0, 0}, kept_tent[2] = {0, 0}, kept_ext = 0, total_ext = 0, len = 0;
-  Obj *prev = NULL;
+  int prev = -1;
   for (Obj *v = globals; v && len < 5; v = v->next, len++) {
-    int idx = v - go;
-    VASSERT(idx >= 0 && idx < n, "result contains only objects of the input");
-    if (prev) VASSERT(v > prev, "relative order is preserved");
-    prev = v;
+    int idx = v->offset;
+    VASSERT(idx >= 0 && idx < n && v == go[idx], "result contains only objects of the input");
+    if (idx < 0 || idx >= n) return;
+    VASSERT(idx > prev, "relative order is preserved");
+    prev = idx;
     int nm = IN.name[idx];
     if (IN.kind[idx] == K_DEFINITION) kept_def[nm]++;
     else if (IN.kind[idx] == K_TENTATIVE) kept_tent[nm]++;
